@@ -107,6 +107,13 @@ def load_known_findings():
         return json.load(fh)
 
 
+def new_violations(check):
+    kf = load_known_findings()
+    open_kf = [k for k in kf.get("open", []) if k.get("property") == check.prop_id]
+    return [v for v in check.violations()
+            if not any(k.get("rule") == v.rule and k.get("key") == v.key for k in open_kf)]
+
+
 def finish(check, repo=None, write_evidence=True, out=print):
     """Print the report, write evidence, return the exit code."""
     kf = load_known_findings()
